@@ -172,7 +172,7 @@ impl Check for C19 {
         t.pick(20_000, 400_000)
     }
     fn fixed(_t: Tier) -> Vec<Case> {
-        let mut names: Vec<String> = std::fs::read_dir("/repo/testdata")
+        let mut names: Vec<String> = std::fs::read_dir(crate::kit::repo_root().join("testdata"))
             .map(|d| d.flatten().map(|e| e.file_name().to_string_lossy().to_string()).filter(|n| n.ends_with(".e57")).collect())
             .unwrap_or_default();
         names.sort();
